@@ -95,10 +95,13 @@ def finishedArgument (isRange hasCount : Bool) (ps : PState) (st : AP) (isInArra
 
 /-- split the tokens of `[ … ]` at top-level commas (what `ExprArray::elems` holds); a trailing comma
     yields no element -/
+def Tok.isComma : Tok → Bool
+  | .punct c => c == ','
+  | _ => false
+
 def splitCommas : List Tok → List Tok → List (List Tok)
   | [], cur => if cur.isEmpty then [] else [cur.reverse]
-  | .punct ',' :: ts, cur => cur.reverse :: splitCommas ts []
-  | t :: ts, cur => splitCommas ts (t :: cur)
+  | t :: ts, cur => if t.isComma then cur.reverse :: splitCommas ts [] else splitCommas ts (t :: cur)
 
 /-- tokens of one array element (`is_in_array = true`): no groups, no commas. -/
 def parseElemTokens (isRange hasCount : Bool) (outer : Nat) :
